@@ -253,7 +253,24 @@ def judge_factory(src: str) -> Optional[Tuple[str, str]]:
         return None
     reason = SG.why_unsafe(tree, NAMES)
     if reason is None:
-        return None
+        # a safe expression over {t, u}: the YAML path accepts it for a node declaring t and u — and must refuse the SAME text for
+        # a node that declares s and u instead (same domains, other names): every name must be one of the node's OWN variables
+        if not any(isinstance(x, ast.Name) and x.id == "t" for x in ast.walk(tree)):
+            return None
+        from semantiva.pipeline.node_preprocess import preprocess_node_config
+
+        def node(vars_):
+            return {"processor": "VSrc", "derive": {"parameter_sweep": {"parameters": {"value": src}, "variables": vars_, "collection": "FloatDataCollection"}}}
+        try:
+            preprocess_node_config(node({"t": [1.0], "u": [2.0]}))
+        except Exception:
+            return None  # not accepted on this path (e.g. a value the source cannot take): nothing to compare
+        try:
+            preprocess_node_config(node({"s": [1.0], "u": [2.0]}))
+        except Exception:
+            return None
+        return ("undeclared-variable-accepted-after-history", f"{src!r} was accepted for a node whose variables are s and u (t is not declared there) after the same text had been "
+                "compiled for a node declaring t and u")
     ensure_hook()
     del _AUDIT[:]
     _AUDIT_ON[0] = True
